@@ -79,6 +79,17 @@ var pinned = []pin{
 	{js: `JSON.stringify([1], null, "ééééééééééé")`, want: "=[\néééééééééé1\n]"},
 	{js: `JSON.stringify([1], null, "é")`, want: "=[\né1\n]"},
 	{js: `JSON.stringify([1], null, "ああああ")`, want: "=[\nああああ1\n]"},
+	// non-terminating serialisation (fresh object per level): bounded by SetMaxCallStackSize, must not overflow the Go stack
+	{js: `var o = {toJSON(){ return [o] }}; JSON.stringify(o)`, want: `throw:go:stackoverflow`},
+	{js: `JSON.stringify({a:1}, function(k, v){ return typeof v === "number" ? {n: v} : v })`, want: `throw:go:stackoverflow`},
+	{js: `Function.prototype.toJSON = function(){ return {f: function(){}} }; JSON.stringify([function(){}])`, want: `throw:go:stackoverflow`},
+	// revoked proxies: IsArray throws
+	{js: `var p = Proxy.revocable([], {}); p.revoke(); JSON.stringify([p.proxy])`, want: `throw:TypeError`},
+	{js: `var p = Proxy.revocable([], {}); p.revoke(); JSON.stringify({}, p.proxy)`, want: `throw:TypeError`},
+	{js: `JSON.stringify({get a(){ delete this.b; return 1 }, b: 2, c: 3})`, want: `={"a":1,"c":3}`},
+	{js: `JSON.stringify(Object.assign([1, 2], {length: 1}))`, want: `=[1]`},
+	// allow-list names keep their code units
+	{js: `var o = {}; o["\ud800"] = 1; o.a = 2; JSON.stringify(o, ["\ud800", "a", "\ud800"])`, want: "={\"\\ud800\":1,\"a\":2}"},
 	// non-callable revivers are ignored
 	{js: `JSON.stringify(JSON.parse('[1]', null))`, want: `=[1]`},
 	{js: `JSON.stringify(JSON.parse('[1]', 5))`, want: `=[1]`},
@@ -114,12 +125,14 @@ func Check() *core.Check {
 			"numeric literals with more than 20 significant digits may round to either neighbour allowed by RoundMVResult (ECMA-262 12.9.3)",
 			"key order of Go map wrappers is unspecified: results containing a multi-key Go map are compared modulo member order (plus an exact re-serialisation check of the engine's own order)",
 			"user callbacks come from a fixed catalogue with Go twins (jsonref/catalog.go)",
+			"a serialisation that does not terminate (a callback returns a fresh object on every level) must be stopped by the documented recursion guard (SetMaxCallStackSize(400) => StackOverflowError); the model recognises it by its depth bound of 96",
+			"property keys that look like identifiers are taken from fixed pools only: of the inherited standard properties the model carries those of Object.prototype and constructor/toString/valueOf/length of the other intrinsic prototypes",
 		},
 		Cases: func(tier string) int {
 			if tier == "thorough" {
 				return 1200000
 			}
-			return 48000
+			return 80000
 		},
 		MinConclusive: func(tier string) int { return 5000 },
 		NumPinned:     len(pinned),
@@ -367,9 +380,27 @@ func minimizeText(units []uint16, monitor string, budget int) []uint16 {
 	return cur
 }
 
+// minimisations counts the violations this worker process has already minimised.  A healthy tree produces none; on a
+// broken tree thousands of cases fail for the same reason, and only the first few per worker are worth the bounded
+// re-execution budget (the verdict of a case never depends on this, only the size of the reported witness).
+var minimisations int
+
+const maxMinimisations = 10
+
+func mayMinimise(c *core.Ctx) bool {
+	if c.Index < 0 {
+		return false
+	}
+	if c.Replay {
+		return true
+	}
+	minimisations++
+	return minimisations <= maxMinimisations
+}
+
 func textViolation(c *core.Ctx, v *viol, units []uint16) core.Result {
 	min := units
-	if c.Index >= 0 {
+	if mayMinimise(c) {
 		min = minimizeText(units, v.monitor, 200)
 	}
 	if !unitsEqual(min, units) {
@@ -591,6 +622,7 @@ func evalDesc(d *Desc, st *core.Stats, marshal bool) (*viol, string) {
 	}
 	rt, mv, mr, ms := d.Model()
 	want := rt.Stringify(mv, mr, ms)
+	divergent := want.Err == jsonref.ErrTooDeep
 
 	e := newEng(true)
 	if e.problem != "" {
@@ -611,13 +643,25 @@ func evalDesc(d *Desc, st *core.Stats, marshal bool) (*viol, string) {
 	} else if o.thrown != "" {
 		return fail("build-script", "the script that builds the value threw "+o.thrown+" ("+o.errText+")")
 	}
-	V, R, S := e.r.Get("V"), e.r.Get("R"), e.r.Get("S")
+	V, R, S := e.global("V"), e.global("R"), e.global("S")
 	o := e.call(e.stringify, V, R, S)
 	switch {
 	case o.crash != "":
 		return fail("stringify-crash", o.crash)
 	case o.incon != "":
 		return nil, o.incon
+	}
+	if divergent {
+		// The serialisation does not terminate (a callback creates a fresh object on every level, so the cycle check never
+		// fires).  The engine must end it with its documented recursion guard (SetMaxCallStackSize ⇒ StackOverflowError),
+		// not by exhausting the Go stack (which would kill this worker and be reported as process death).
+		if st != nil {
+			st.Inc("divergent_serialisations_stopped_by_stack_guard")
+		}
+		if o.thrown != "go:stackoverflow" {
+			return fail("stringify-divergent", "non-terminating serialisation: expected StackOverflowError (SetMaxCallStackSize), observed "+describeOut(o))
+		}
+		return nil, ""
 	}
 	if st != nil {
 		st.Inc("stringify_evaluations")
@@ -635,7 +679,7 @@ func evalDesc(d *Desc, st *core.Stats, marshal bool) (*viol, string) {
 	// callback log (order and arguments of replacer / toJSON calls)
 	if len(rt.Log) > 0 || st != nil {
 		if !d.unordered() {
-			toks, do := e.dump(e.r.Get("LOG"))
+			toks, do := e.dump(e.global("LOG"))
 			if do.crash != "" {
 				return fail("stringify-crash", do.crash)
 			}
@@ -656,6 +700,9 @@ func evalDesc(d *Desc, st *core.Stats, marshal bool) (*viol, string) {
 		e2 := e
 		rt2, mv2, _, _ := d.Model()
 		want2 := rt2.Stringify(mv2, jsonref.Undefined, jsonref.Undefined)
+		if want2.Err == jsonref.ErrTooDeep {
+			return nil, ""
+		}
 		var bytes []byte
 		mo := e2.classify(gj.Call(func() (goja.Value, error) {
 			b, err := obj.MarshalJSON()
@@ -717,6 +764,7 @@ func minimizeDesc(d *Desc, monitor string, marshal bool, budget int) *Desc {
 		}
 		return false
 	}
+	cur = cur.compact()
 	try(func(c *Desc) bool { c.Repl = DV{T: "undef"}; return d.Repl.T != "undef" })
 	try(func(c *Desc) bool { c.Space = DV{T: "undef"}; return d.Space.T != "undef" })
 	try(func(c *Desc) bool { c.Patches = nil; return len(d.Patches) > 0 })
@@ -733,6 +781,24 @@ func minimizeDesc(d *Desc, monitor string, marshal bool, budget int) *Desc {
 				break
 			}
 		}
+		cur = cur.compact()
+		// replace a container-valued slot by null
+		for ni := 0; ni < len(cur.Nodes) && !progress; ni++ {
+			if k := cur.Nodes[ni].Kind; k == "gostruct" || k == "goslice" {
+				continue
+			}
+			for pi := range cur.Nodes[ni].Props {
+				if cur.Nodes[ni].Props[pi].Val.T != "ref" {
+					continue
+				}
+				a, b := ni, pi
+				if try(func(c *Desc) bool { c.Nodes[a].Props[b].Val = DV{T: "null"}; return true }) {
+					progress = true
+					break
+				}
+			}
+		}
+		cur = cur.compact()
 		for ni := len(cur.Nodes) - 1; ni >= 0 && !progress; ni-- {
 			if cur.Nodes[ni].Kind == "gostruct" {
 				continue
@@ -753,18 +819,18 @@ func minimizeDesc(d *Desc, monitor string, marshal bool, budget int) *Desc {
 			}
 		}
 	}
-	return cur
+	return cur.compact()
 }
 
 func descViolation(c *core.Ctx, v *viol, d *Desc, marshal bool) core.Result {
 	key := v.rec.JS
 	min := d
-	if c.Index >= 0 {
+	if mayMinimise(c) {
 		min = minimizeDesc(d, v.monitor, marshal, 200)
 	}
 	if min != d {
 		if v2, _ := evalDesc(min, nil, marshal); v2 != nil && v2.monitor == v.monitor {
-			v2.detail += "\n(minimised; original script:\n" + core.Trunc(v.rec.JS, 1500) + ")"
+			v2.detail += "\nminimised script:\n" + stripHelper(v2.rec.JS) + "(original script:\n" + core.Trunc(stripHelper(v.rec.JS), 1200) + ")"
 			v = v2
 		}
 	}
@@ -793,6 +859,7 @@ func runStringify(c *core.Ctx) core.Result {
 		}
 		var rc, sc string
 		d.Repl, rc = g.genReplacer(keys)
+		g.wsGap = d.unordered() // results compared modulo member order must stay parseable: white-space gaps only
 		d.Space, sc = g.genSpace()
 		marshal := (c.Index+k)%2 == 0
 		if c.Replay {
@@ -885,7 +952,7 @@ func evalRoundTrip(d *Desc, st *core.Stats) (*viol, string) {
 	} else if o.thrown != "" {
 		return fail("build-script", "the script that builds the value threw "+o.thrown+" ("+o.errText+")")
 	}
-	V, S := e.r.Get("V"), e.r.Get("S")
+	V, S := e.global("V"), e.global("S")
 	so := e.call(e.stringify, V, goja.Undefined(), S)
 	if so.crash != "" {
 		return fail("stringify-crash", so.crash)
@@ -1039,7 +1106,7 @@ func evalReviver(units []uint16, reviver string, st *core.Stats) (*viol, *jsonre
 	if dd := jsonref.MatchDump(md, toks); dd != "" {
 		return fail("reviver-result", "JSON.parse(text, reviver) differs from the model: "+dd)
 	}
-	ltoks, lo := e.dump(e.r.Get("LOG"))
+	ltoks, lo := e.dump(e.global("LOG"))
 	if lo.crash == "" && lo.incon == "" && lo.thrown == "" {
 		logArr := jsonref.ObjV(rt.NewArray(rt.Log...))
 		if dd := jsonref.MatchDump(jsonref.Dump(&logArr), ltoks); dd != "" {
@@ -1082,6 +1149,9 @@ func runReviver(c *core.Ctx) core.Result {
 		// minimise the text under the same reviver
 		min := units
 		budget := 200
+		if !mayMinimise(c) {
+			budget = 0
+		}
 		for progress := true; progress && budget > 0; {
 			progress = false
 			for i := 0; i < len(min) && budget > 0; i++ {
